@@ -17,7 +17,7 @@ cur = None
 for line in read("docs/prop_notes.md").split("\n"):
     m = re.match(r"^## (C\d\d)\s*$", line)
     if m:
-        cur = m.group(1); notes[cur] = []
+        cur = m.group(1); notes.setdefault(cur, []).append("")
     elif cur:
         notes[cur].append(line)
 
